@@ -1342,3 +1342,22 @@ example (F : IdxN → ℚ) (H : Nat → IdxN → ℚ) :
             (accProg .div).steps x) :=
   C13.loops_grad_div_adjoint .central .order2 _ 4 (fun _ _ => by decide) (fun _ _ => by decide)
     _ F H
+
+
+/-! ### ROUND 6: the epilogue `out /= dx` of `finite_diff` read from the source (`dxScale`) -/
+
+/-- The epilogue of `finite_diff` as READ by the translator (`Gen.dxScale`; grammar `out /= E` /
+`out *= E`, `E` a power of `dx` or `1 / dx`) divides by `dx` once, and `fdBy dxScale` - the
+definition the driver's `fd` / `mat` ops execute against the real `finite_diff` (streams
+`fd/…`, `fdvec`, `fdgen`) - is the `fd` all other theorems are about.  By construction, decided
+on the generated value: `out *= dx` or `out /= dx ** 2` in the source refute it. -/
+theorem C13.fd_epilogue_is_model {K : Type} [Field K] (t : Table) (n : Nat) (c dx : K)
+    (f : Nat → K) (i : Nat) :
+    dxScale = (true, 1) ∧ fdBy dxScale den t n c dx f i = fd den t n c dx f i := by
+  refine ⟨by decide, ?_⟩
+  simp [fdBy, dxScale, fd, powN, div_div]
+
+example : fdBy dxScale den (tbl .central .order1) 2 0 (1 / 2 : ℚ) (fun i => (i : ℚ) * 3) 1
+    = stencil .central (padded .order1 2 0 (fun i => (i : ℚ) * 3)) 1 / (1 / 2) := by
+  rw [(C13.fd_epilogue_is_model _ _ _ _ _ _).2]
+  exact C13.fd_eq_stencil_ext .central .order1 rfl 2 (by decide) 0 _ _ 1 (by decide)
